@@ -317,8 +317,14 @@ def c02_r5(ctx: Ctx, rule):
             res.fail(rule.id, "xml-scope::shared-nsmap::%s" % name, ctx.loc(q, fi.node), "the namespace map `%s` is not created per call: declarations added for one bundle leak into the bundles written after it" % name,
                      "two bundles, the first re-declaring a document prefix: names in the second bundle are written under the first bundle's binding")
     # the bundle's own bindings override: the store for bundle namespaces is not skipped when the *prefix* is already present
-    for n in walk_function(fi.node):
-        if isinstance(n, ast.For) and bparam in norm(n.iter) and "namespaces" in norm(n.iter):
+    loops = []
+    for q2 in [x for x in ctx.helper_closure(q) if x.startswith(XM + ".")]:
+        f2 = ctx.fn(q2)
+        for n in walk_function(f2.node):
+            if isinstance(n, ast.For) and "namespaces" in norm(n.iter) and any(isinstance(x, ast.Name) and (x.id == bparam if q2 == q else x.id in f2.params and x.id != "self") for x in ast.walk(n.iter)):
+                loops.append((q2, n))
+    for q2, n in loops:
+        if True:
             v = norm(n.target)
             for t in ast.walk(n):
                 if isinstance(t, ast.If) and isinstance(t.test, ast.Compare) and isinstance(t.test.ops[0], ast.NotIn):
@@ -326,7 +332,7 @@ def c02_r5(ctx: Ctx, rule):
                     skipping = left == "%s.prefix" % v
                     res.ob("bundle namespaces loop: guard `%s` keeps the bundle's own binding of an already declared prefix: %s" % (norm(t.test), not skipping))
                     if skipping:
-                        res.fail(rule.id, "xml-scope::bundle-binding-skipped", ctx.loc(q, t),
+                        res.fail(rule.id, "xml-scope::bundle-binding-skipped", ctx.loc(q2, t),
                                  "a bundle's binding is dropped when the document already declares the same prefix (`%s`)" % norm(t.test),
                                  "document ex->A, bundle ex->B: every ex: name in the bundle is written under A and reloads with another URI")
     return res
